@@ -459,9 +459,15 @@ class RenderContext:
             # tag namespaces need to be copied.
             ctx.tag_namespace["extends"] = self.tag_namespace["extends"]
         else:
+            # Isolated contexts see global data only, not the namespace or scope of
+            # any context they were copied from.
+            root = self
+            while root.parent_context is not None:
+                root = root.parent_context
+
             ctx = self.__class__(
                 template or self.template,
-                globals=ReadOnlyChainMap(namespace, self.globals),
+                globals=ReadOnlyChainMap(namespace, root.globals),
                 disabled_tags=disabled_tags,
                 copy_depth=self._copy_depth + 1,
                 parent_context=self,
